@@ -54,6 +54,9 @@ def explore_entry(args):
     t0 = time.time()
     deadline = t0 + opts.get("entry_timeout", 600)
     npaths = [0]
+    collect_waits = opts.get("collect_waits", False)
+    waits = set()
+    wait_examples = {}
 
     def on_done(st):
         npaths[0] += 1
@@ -62,6 +65,22 @@ def explore_entry(args):
         for e in st.trace:
             if e[0] == "ev" and e[1] == 106 and isinstance(e[2], int):
                 res["marks"][str(e[2])] = res["marks"].get(str(e[2]), 0) + 1
+            elif e[0] == "ev" and e[1] == 102 and collect_waits:
+                a, b = e[2], e[3]
+                if isinstance(a, int) and isinstance(b, int):
+                    wt = (a & 0xFF, (a >> 8) & 1, b & 0xFFFF, (b >> 16) & 0xFFFF)
+                    waits.add(wt)
+                    # keep one example path per wait point, preferring paths without earlier interference
+                    clean = not any(x[0] == "ev" and x[1] == 102 for x in st.trace[:st.trace.index(e)])
+                    if wt not in wait_examples or (clean and not wait_examples[wt][1]):
+                        try:
+                            m = it.model(st)
+                        except Exception:
+                            m = None
+                        if m is not None:
+                            wait_examples[wt] = (m[0], clean)
+                else:
+                    res["symbolic_waits"] = res.get("symbolic_waits", 0) + 1
         if o in ("assume-false", "infeasible"):
             return
         if opts.get("check_leaks") and o == "return" and st.heap_live != 0:
@@ -93,6 +112,8 @@ def explore_entry(args):
     except Exception as e:
         import traceback
         res["error"] = "%s: %s\n%s" % (type(e).__name__, e, traceback.format_exc()[-1500:])
+    res["waits"] = sorted(waits)
+    res["wait_examples"] = [[list(k), v[0], v[1]] for k, v in wait_examples.items()]
     res["stats"] = it.stats
     res["fns"] = len(it.fns_executed)
     res["fn_names"] = sorted(set(prog.fns[f]["def_name"][:140] for f in it.fns_executed
